@@ -89,8 +89,9 @@ _CG_CACHE: Dict[int, CallGraph] = {}
 
 def get(prog: Program) -> CallGraph:
     cg = _CG_CACHE.get(id(prog))
-    if cg is None:
+    if cg is None or cg.prog is not prog:
         cg = CallGraph(prog)
+        _CG_CACHE.clear()
         _CG_CACHE[id(prog)] = cg
     return cg
 
